@@ -159,6 +159,31 @@ fn sched_of(req: &Value, len: usize) -> (Vec<Sched>, usize) {
     }
 }
 
+/// decode() through a `TracedR` around the real reader
+fn trace_dec<T: Message>(input: &[u8], proto: &str) -> Value {
+    use vh::traced::TracedR;
+    let mut b = Bytes::copy_from_slice(input);
+    macro_rules! go {
+        ($mk:expr) => {{
+            let mut tr = TracedR::new($mk);
+            let s0 = tr.start();
+            let r = catch_unwind(AssertUnwindSafe(|| T::decode(&mut tr)));
+            let used = tr.used(s0);
+            let err = match r {
+                Ok(Ok(_)) => String::new(),
+                Ok(Err(e)) => format!("err: {e}"),
+                Err(e) => panic_msg(e),
+            };
+            json!({"events": tr.log, "used": used, "err": err, "unmodelled": tr.unmodelled})
+        }};
+    }
+    match proto {
+        "bin" => go!(binary::TBinaryProtocol::new(&mut b, false)),
+        "binle" => go!(binary_le::TBinaryProtocol::new(&mut b, false)),
+        _ => go!(compact::TCompactInputProtocol::new(&mut b)),
+    }
+}
+
 /// size() then encode() of x through a `TracedW` around the real protocol writing into a BytesMut
 fn trace_enc<T: Message>(x: &T, proto: &str) -> Value {
     use vh::traced::TracedW;
@@ -194,6 +219,16 @@ pub fn exec<T: Message + PartialEq + std::fmt::Debug>(req: &Value) -> Value {
     let op = req["op"].as_str().unwrap_or("roundtrip").to_string();
     let input = bytes_of(&req["input"]);
     let r = catch_unwind(AssertUnwindSafe(|| -> Value {
+        if op == "trace_decode" {
+            // the call sequence of the EMITTED decode() on a real reader, one event per call, for each protocol's input
+            let mut traces = serde_json::Map::new();
+            for tp in ["bin", "binle", "compact"] {
+                if req["inputs"][tp].is_array() {
+                    traces.insert(tp.to_string(), trace_dec::<T>(&bytes_of(&req["inputs"][tp]), tp));
+                }
+            }
+            return json!({"ok": true, "traces": traces});
+        }
         let (x, used, polls): (T, usize, Option<Vec<(usize, Option<usize>)>>) = if mode == "async" {
             let (sched, chunk) = sched_of(req, input.len());
             let eof = req["eof_at"].as_u64().map(|k| k as usize);
